@@ -1093,6 +1093,11 @@ def gen_C19(rng, tier):
         for k, (a, b) in enumerate(((0, 0), (1, 1))): L.append('new %d r9 new %s %d %d' % (1 + k, lit, a, b)); sz(L, 1 + k)
         for k, (a, b) in enumerate(((0, 0), (1, 0), (0, 1), (1, 1))): L.append('new %d da new %s %d %d' % (3 + k, lit, a, b)); sz(L, 3 + k)
         for k in (0, 1): L.append('new %d sa new %s %d' % (7 + k, lit, k)); sz(L, 7 + k)
+        # enabling an index that is already there (after `build_from_bits(.., true, ..)` or a round trip) must not grow the structure
+        L += ['m 2 select1_hints', 'm 2 select0_hints']; sz(L, 2)
+        L += ['new 9 r9 deser 2', 'm 9 select0_hints', 'm 9 select1_hints']; sz(L, 9)
+        L += ['m 6 enable_select0', 'm 6 enable_rank']; sz(L, 6)
+        L += ['m 8 enable_rank']; sz(L, 8)
         cases.append(L)
     for ci in range(30 if tier == 'quick' else 150):
         L = ['case C19-seq-%d' % ci]
@@ -1103,6 +1108,7 @@ def gen_C19(rng, tier):
         xs = sorted(rng.randrange(0, u) for _ in range(n))
         for k in (0, 1):
             L += ['new %d efb new %d %d' % (10 + k, u, n), 'm %d extend %s' % (10 + k, lst(xs)), 'new %d ef build %d %d' % (k, 10 + k, k)]; sz(L, k)
+        L += ['m 1 enable_rank']; sz(L, 1)
         vals = dac_vals(rng, tier, ci)
         L.append('new 2 db from_slice %s' % lst(vals)); sz(L, 2)
         L.append('new 3 do from_slice %s %s' % (rng.choice(['none', '2', '4']), lst(vals))); sz(L, 3)
@@ -1152,7 +1158,30 @@ GENERATORS = {'C01': gen_C01, 'C02': gen_C02, 'C03': gen_C03, 'C04': gen_C04, 'C
               'C07': gen_C07, 'C08': gen_C08, 'C09': gen_C09, 'C10': gen_C10, 'C11': gen_C11, 'C12': gen_C12,
               'C13': gen_C13, 'C14': gen_C14, 'C15': gen_C15, 'C16': gen_C16, 'C17': gen_C17, 'C18': gen_C18,
               'C19': gen_C19}
+def with_reenable(gen):
+    """index builders applied to a structure that already has the index: the answers (and the serialized bytes) stay what they were"""
+    REEN = {'r9': ['select1_hints', 'select0_hints'], 'da': ['enable_rank', 'enable_select0'], 'sa': ['enable_rank'], 'ef': ['enable_rank']}
+    def g(rng, tier, *a):
+        cases = gen(rng, tier, *a)
+        r2 = random.Random(rng.random())
+        for c in cases:
+            if r2.random() < 0.6 or len(c) > 3000: continue
+            objs = {}
+            for l in c:
+                t = l.split(' ')
+                if t[0] == 'new' and len(t) > 3 and t[2] in REEN and len(l) < 200000: objs[t[1]] = t[2]
+            extra = []
+            for oid, kind in objs.items():
+                qs = [l for l in c if l.startswith('q %s ' % oid) and l.split(' ')[2] not in ('ser', 'rt', 'sched', 'trunc', 'wfail')]
+                if not qs: continue
+                for m in r2.sample(REEN[kind], r2.randrange(1, len(REEN[kind]) + 1)): extra.append('m %s %s' % (oid, m))
+                extra += r2.sample(qs, min(len(qs), 8))
+            c.extend(extra)
+        return cases
+    return g
+
 GENERATORS = dict((k_, with_hops(v_)) for k_, v_ in GENERATORS.items())
+for k_ in ('C01', 'C02', 'C03', 'C04', 'C12', 'C15'): GENERATORS[k_] = with_reenable(GENERATORS[k_])
 
 
 # ------------------------------------------------------------------------------------------------
